@@ -317,7 +317,7 @@ fn type_consistency(k: bool, b: u8) -> TypeConsistencyEnforcementQosPolicy {
 }
 
 #[derive(Clone, Copy, PartialEq, Eq, Debug)]
-enum Tri {
+pub enum Tri {
     No,
     Yes,
     /// the specifications leave it open (or dust-dds documents its own choice): both results accepted
@@ -345,6 +345,17 @@ fn dur_lt(a: &DurationKind, b: &DurationKind) -> bool {
         (DurationKind::Infinite, _) => false,
         (DurationKind::Finite(_), DurationKind::Infinite) => true,
         (DurationKind::Finite(x), DurationKind::Finite(y)) => x < y,
+    }
+}
+
+/// DATA_REPRESENTATION is not changeable (XTypes 1.3 7.6.3.1.1); an empty list means [XCDR1], so
+/// [] <-> [XCDR1] is no real change (either result accepted).
+fn repr_diff(definite: &mut Vec<&'static str>, tolerated: &mut Vec<&'static str>, a: &DataRepresentationQosPolicy, b: &DataRepresentationQosPolicy) {
+    let norm = |p: &DataRepresentationQosPolicy| if p.value.is_empty() { vec![0] } else { p.value.clone() };
+    if norm(a) != norm(b) {
+        definite.push("representation");
+    } else if a != b {
+        tolerated.push("representation");
     }
 }
 
@@ -384,8 +395,10 @@ impl QosModel for TopicQos {
     }
     fn immutable_diff(&self, o: &Self) -> (Vec<&'static str>, Vec<&'static str>) {
         let mut v = vec![];
-        diff!(v, self, o, durability, liveliness, reliability, destination_order, history, resource_limits, ownership, representation);
-        (v, vec![])
+        diff!(v, self, o, durability, liveliness, reliability, destination_order, history, resource_limits, ownership);
+        let mut t = vec![];
+        repr_diff(&mut v, &mut t, &self.representation, &o.representation);
+        (v, t)
     }
 }
 
@@ -426,8 +439,10 @@ impl QosModel for DataWriterQos {
     }
     fn immutable_diff(&self, o: &Self) -> (Vec<&'static str>, Vec<&'static str>) {
         let mut v = vec![];
-        diff!(v, self, o, durability, liveliness, reliability, destination_order, history, resource_limits, ownership, representation);
-        (v, vec![])
+        diff!(v, self, o, durability, liveliness, reliability, destination_order, history, resource_limits, ownership);
+        let mut t = vec![];
+        repr_diff(&mut v, &mut t, &self.representation, &o.representation);
+        (v, t)
     }
 }
 
@@ -469,8 +484,9 @@ impl QosModel for DataReaderQos {
     }
     fn immutable_diff(&self, o: &Self) -> (Vec<&'static str>, Vec<&'static str>) {
         let mut v = vec![];
-        diff!(v, self, o, durability, liveliness, reliability, destination_order, history, resource_limits, ownership, representation);
+        diff!(v, self, o, durability, liveliness, reliability, destination_order, history, resource_limits, ownership);
         let mut t = vec![];
+        repr_diff(&mut v, &mut t, &self.representation, &o.representation);
         // XTypes 1.3 lists TYPE_CONSISTENCY_ENFORCEMENT as not changeable; DDS 1.4 does not know it -> tolerated
         diff!(t, self, o, type_consistency);
         (v, t)
@@ -762,6 +778,11 @@ fn shape<Q: QosModel>(cur: Option<&Q>, q: &Q, enabled: bool) -> String {
     let imm = match cur {
         Some(c) if enabled => c.immutable_diff(q).0,
         _ => vec![],
+    };
+    // signature shape: rule family (the exact rule is in the explanation)
+    let rule = match rule {
+        "depth>max_samples_per_instance" | "max_samples<max_samples_per_instance" => "history/resource_limits",
+        r => r,
     };
     match (inc, imm.first()) {
         (Tri::Yes, Some(_)) => format!("inconsistent[{rule}]+immutable"),
@@ -1158,7 +1179,7 @@ pub fn main(ctx: &Ctx) {
         ctx,
         Campaign {
             total_cases: ctx.pick(1_500, 75_000),
-            max_shrink_iters: 400,
+            max_shrink_iters: 200,
             limits: Limits { cpu_s: 30, wall_s: 120, as_bytes: 4 << 30 },
             meta: Meta {
                 rule: "one entity under test (topic, publisher, subscriber, writer, reader), created with a generated QoS (default or default + 0-3 policy changes) by a factory with autoenable on/off, then 1-12(24) ops: set_qos(current or default QoS + 1-3 generated policy changes over the entity's whole policy set, incl. depth>max_samples_per_instance, max_samples<max_samples_per_instance, deadline<minimum_separation, several writer representations), set_qos(Default), enable, and in 20% of the cases (second participant) discovery checkpoints; expected result from the DDS 1.4 consistency rules and Changeable column; get_qos compared with the last accepted value after every call; at checkpoints the observer's DCPSPublication/DCPSSubscription/discovered-topic data must equal the accepted QoS within 4 s virtual; non-trivial = at least one rejection (InconsistentPolicy/ImmutablePolicy) was due or one discovery checkpoint ran; distinct = hash of the case",
